@@ -3,7 +3,7 @@ import re
 from fractions import Fraction
 
 from .core import RuleResult
-from .facts import fn_key, fn_loc, strip, peel_refs, pat_bindings, Render
+from .facts import fn_key, fn_loc, strip, peel_refs, pat_bindings, Render, walk
 from .regions import Region, parse_spec, EPS
 from .sym import Tracer, Term, k, as_term, walk_terms
 
@@ -110,7 +110,10 @@ class Guard:
     def const_of(self, n):
         n = peel_refs(n)
         if n["k"] == "Lit" and n["lk"] in ("int", "float"):
-            return Fraction(n["v"].replace("_", "").rstrip("f32").rstrip("f64") if n["lk"] == "float" else n["v"])
+            try:
+                return Fraction(re.sub(r"_?(f32|f64|usize|u8|u16|u32|u64|i8|i16|i32|i64|isize)$", "", n["v"].replace("_", "")))
+            except ValueError:
+                return None
         if n["k"] == "Unary" and n["op"] == "-":
             c = self.const_of(n["e"])
             return -c if c is not None else None
@@ -746,5 +749,48 @@ def rule_forge(ctx):
     return res.finish(23)
 
 
+def rule_default(ctx):
+    res = RuleResult("R-C04-default", "every constant a constructor stores into a checked parameter struct lies inside the accepted region of that parameter")
+    F = ctx.facts()
+    impls = guard_impls(F)
+    for builder in sorted(impls):
+        fns = impls[builder]
+        if "check_ref" not in fns or "check" not in fns or builder not in TABLE:
+            continue
+        try:
+            regions, rel, opaque, wit = analyse_check_ref(fns["check_ref"], builder, TABLE[builder])
+        except Unclassified:
+            continue
+        tr = Tracer(fns["check"]).run()
+        rv = as_term(tr.result)
+        if rv is None or not rv.is_call("Ok") or rv.node is None:
+            continue
+        vty = fns["check"]["crate"].ty(rv.node["args"][0].get("t")).split("<")[0]
+        crate = fns["check"]["crate"]
+        for g in crate.fns:
+            gd = Guard(g, "\0", {}, False)
+            for n in walk(g["body"]):
+                if n.get("k") != "Struct":
+                    continue
+                d = crate.dfn(n.get("def"))
+                if not d or not (d["path"] == vty or d["path"].endswith("::" + vty.split("::")[-1])):
+                    continue
+                for f in n["fields"]:
+                    if f["name"] not in regions:
+                        continue
+                    c = gd.const_of(f["e"])
+                    if c is None:
+                        continue
+                    got, integer, ty = regions[f["name"]]
+                    inst = "%s : %s = %s in %s" % (builder, f["name"], c, fn_key(g))
+                    res.instance(inst)
+                    if got.contains(c):
+                        res.ok()
+                        res.sample({"builder": builder, "param": f["name"], "default": str(c), "accepted": repr(got)})
+                    else:
+                        res.violate("%s : default-outside-range:%s" % (builder, f["name"]), "%s stores %s into `%s`, outside the accepted region %s: the default builder does not pass its own check" % (fn_key(g), c, f["name"], got), fn_loc(g, n.get("ln")))
+    return res.finish(20)
+
+
 def rules(tier):
-    return [rule_range, rule_same, rule_dom, rule_forge]
+    return [rule_range, rule_same, rule_dom, rule_forge, rule_default]
